@@ -314,6 +314,10 @@ func (db *MultiBucketBackend) BucketExists(name string) (exists bool, err error)
 }
 
 func (db *MultiBucketBackend) HeadObject(bucketName, objectName string) (*gofakes3.Object, error) {
+	if err := checkObjectName(objectName); err != nil {
+		return nil, err
+	}
+
 	db.lock.Lock()
 	defer db.lock.Unlock()
 
@@ -353,6 +357,10 @@ func (db *MultiBucketBackend) HeadObject(bucketName, objectName string) (*gofake
 }
 
 func (db *MultiBucketBackend) GetObject(bucketName, objectName string, rangeRequest *gofakes3.ObjectRangeRequest) (obj *gofakes3.Object, rerr error) {
+	if err := checkObjectName(objectName); err != nil {
+		return nil, err
+	}
+
 	db.lock.Lock()
 	defer db.lock.Unlock()
 
@@ -421,6 +429,10 @@ func (db *MultiBucketBackend) PutObject(
 	meta map[string]string,
 	input io.Reader, size int64,
 ) (result gofakes3.PutObjectResult, err error) {
+
+	if err := checkObjectName(objectName); err != nil {
+		return result, err
+	}
 
 	err = gofakes3.MergeMetadata(db, bucketName, objectName, meta)
 	if err != nil {
@@ -514,6 +526,10 @@ func (db *MultiBucketBackend) DeleteObject(bucketName, objectName string) (resul
 }
 
 func (db *MultiBucketBackend) deleteObjectLocked(bucketName, objectName string) error {
+	if err := checkObjectName(objectName); err != nil {
+		return err
+	}
+
 	fullPath := path.Join(bucketName, objectName)
 
 	// S3 does not report an error when attemping to delete a key that does not exist, so
